@@ -46,6 +46,8 @@ type vWorld struct {
 	execMenu  int // statement fn outcomes: 0 one row + Complete, 1 error, 2 Complete only, 3 row then error
 	lastParse []*vStmtInfo
 	lastParseErr bool
+	freshWriters  []bool
+	countersRight []bool
 }
 
 var errVerifParse = errors.New("verif: parse failed")
@@ -61,6 +63,15 @@ func (w *vWorld) mkStmt(cols, nparams int) *PreparedStatement {
 	}
 	fn := func(ctx context.Context, dw DataWriter, params []Parameter) error {
 		w.events = append(w.events, vEvent{kind: 'x', id: info.id, params: params, ctx: ctx})
+		// every statement gets a fresh result writer: nothing written, not closed
+		w.freshWriters = append(w.freshWriters, dw.Written() == 0)
+		defer func() {
+			delivered := uint64(0)
+			if info.outcome == 0 || info.outcome == 3 {
+				delivered = 1
+			}
+			w.countersRight = append(w.countersRight, dw.Written() == delivered)
+		}()
 		row := make([]any, info.cols)
 		for i := range row {
 			row[i] = "v"
@@ -438,6 +449,12 @@ func VerifH05b() {
 			vAssert("statement-order", e.id == w.lastParse[k].id)
 			k++
 		}
+	}
+	for _, ok := range w.freshWriters {
+		vAssert("each-statement-gets-a-fresh-writer", ok)
+	}
+	for _, ok := range w.countersRight {
+		vAssert("row-counter-equals-rows-delivered-by-this-statement", ok)
 	}
 	vAssert("wire-wellformed", vWireOK(w.conn.out))
 	if len(w.lastParse) == 2 && ranWant == 2 {
